@@ -47,8 +47,8 @@ def run(prog, R, tier="quick", only_rule=None):
     c07f(prog, R)
 
 
-def c07a(prog, R):
-    r = R.rule("C07.a", "runs are built only from order-preserving sources", "D,W")
+def c07a(prog, R, rid="C07.a"):
+    r = R.rule(rid, "runs are built only from order-preserving sources", "D,W")
     sites = [c for c in prog.all_calls(RUN_NEW)]
     n = 0
     for c in sites:
@@ -168,8 +168,8 @@ def store_blocks(f, field_tag):
     return out
 
 
-def c07c(prog, R):
-    r = R.rule("C07.c", "the table writer's metadata follows the stream on every path", "P,W")
+def c07c(prog, R, rid="C07.c"):
+    r = R.rule(rid, "the table writer's metadata follows the stream on every path", "P,W")
     M = "table::writer::meta::Metadata"
     f = prog.need("table::writer::Writer::write")
     for fld in ("lowest_seqno", "highest_seqno"):
@@ -255,8 +255,8 @@ def lit_of(n):
     return None
 
 
-def c07d(prog, R):
-    r = R.rule("C07.d", "meta tables agree between writer and reader; keys sorted; sections exist", "G")
+def c07d(prog, R, rid="C07.d"):
+    r = R.rule(rid, "meta tables agree between writer and reader; keys sorted; sections exist", "G")
     w = prog.hir.get(A.TABLE_WRITER_FINISH)
     rd = prog.hir.get("table::meta::ParsedMeta::load_with_handle")
     if not w or not rd:
